@@ -20,8 +20,7 @@ theorem scheduleSend_ev (s : Streams) (id : Nat) : Ev s (s.scheduleSend id) := b
 
 theorem queueFrame_ev (s : Streams) (id : Nat) (f : SFrame) (hf : SFrame.isPP f = false) : Ev s (s.queueFrame id f) := by
   unfold Streams.queueFrame
-  refine .trans (modStream_ev _ _ _ ?_) (scheduleSend_ev _ _)
-  intro st _
+  refine .trans (modStream_ev' _ _ _ ?_) (scheduleSend_ev _ _)
   exact setPendingSend_same' _ _ (mem_append_single_pp hf)
 
 theorem queueOpen_ev (s : Streams) (id : Nat) (h : s.counts.isLocalInit (s.stream id).id = true) : Ev s (s.queueOpen id) :=
@@ -202,7 +201,7 @@ theorem clearPendingSend_ev : ∀ (fuel : Nat) (s : Streams), Ev s (Streams.clea
       dsimp only
       refine .trans e0 (.trans (transitionAfter_after id ?_) (ih _))
       split
-      · exact modStreamW_ev _ _ _ (fun _ _ => setReset_same _ _ _)
+      · exact modStreamW_ev' _ _ _ (setReset_same _ _ _)
       · exact .refl _
 
 /-- what follows the `match stream.pending_send.pop_front(buffer)` in `pop_frame` -/
@@ -214,11 +213,10 @@ theorem popFrame_finish {s' s2 : Streams} (id : Nat) (c : Prop) [Decidable c] (e
   · exact .refl _
 
 theorem popRest_same {s : Streams} {id : Nat} {x : SFrame} {rest : List SFrame} (h : (s.stream id).pendingSend = x :: rest) :
-    ∀ st, s.store.get? id = some st → Same st { st with pendingSend := rest } := by
-  intro st hst
+    Same (s.stream id) { s.stream id with pendingSend := rest } := by
   refine setPendingSend_same' _ _ ?_
   intro f hf _
-  rw [← stream_of_get? hst, h]; exact List.mem_cons_of_mem _ hf
+  rw [h]; exact List.mem_cons_of_mem _ hf
 
 set_option hygiene false in
 /-- the part of `pop_frame`'s DATA arm that sends (a piece of) the frame -/
@@ -235,7 +233,7 @@ local macro "pf_data_rest" : tactic => `(tactic|
          have := hsd ((s'.modStream id fun st => { st with pendingSend := rest }).stream id)
            (usizeAsU32 (min (min sz maxLen) (s'.stream id).sendFlow.available.asSize)) (s'.modStream id fun st => { st with pendingSend := rest }).prio.maxBufferSize
          rw [hp] at this; exact this
-       have e1 : Ev s' (s'.modStream id fun st => { st with pendingSend := rest }) := modStream_ev _ _ _ (popRest_same hps)
+       have e1 : Ev s' (s'.modStream id fun st => { st with pendingSend := rest }) := modStream_ev' _ _ _ (popRest_same hps)
        have e2 := setStream_ev _ id st' hsame
        refine .trans e1 (.trans e2 ?_)
        ev_auto))
@@ -266,13 +264,13 @@ theorem popFrameC_ev (sd : Stream → Nat → Nat → Stream × List String × B
         · simp only [Bool.false_eq_true, if_false]
           pf_data_rest
       · next heos fields rest hps =>
-        exact popFrame_finish id _ (modStream_ev _ _ _ (popRest_same hps))
+        exact popFrame_finish id _ (modStream_ev' _ _ _ (popRest_same hps))
       · next reason rest hps =>
-        exact popFrame_finish id _ (modStream_ev _ _ _ (popRest_same hps))
+        exact popFrame_finish id _ (modStream_ev' _ _ _ (popRest_same hps))
       · next pk pid fields rest hps =>
         split
         · next hfind =>
-          refine .trans (popFrame_finish id _ (modStream_ev _ _ _ (popRest_same hps))) (ih _ _)
+          refine .trans (popFrame_finish id _ (modStream_ev' _ _ _ (popRest_same hps))) (ih _ _)
         · next pushed hfind =>
           refine popFrame_finish id _ ?_
           refine .ppAct id pk pid fields rest pushed hps ?_
@@ -284,7 +282,7 @@ theorem popFrameC_ev (sd : Stream → Nat → Nat → Stream × List String × B
           rw [← this]; exact hfind
       · next hps =>
         split
-        · exact popFrame_finish id _ (modStreamW_ev _ _ _ (fun _ _ => setReset_same _ _ _))
+        · exact popFrame_finish id _ (modStreamW_ev' _ _ _ (setReset_same _ _ _))
         · exact .trans (transitionAfter_after id (.refl _)) (ih _ _)
 
 theorem popFrame_ev (fuel : Nat) (s : Streams) (maxLen : Nat) : Ev s (Streams.popFrame fuel s maxLen).1 := by
@@ -298,7 +296,7 @@ theorem popPendingOpen_ev (s : Streams) : Ev s s.popPendingOpen.1 := by
     split
     · next s' id heq =>
       rw [heq] at h
-      exact .trans h (modStreamW_ev _ _ _ (fun _ _ => notifySend_same _))
+      exact .trans h (modStreamW_ev' _ _ _ (notifySend_same _))
     · next s' heq => rw [heq] at h; exact h
   · exact .refl _
 
